@@ -6,7 +6,7 @@
 //!             | repo:<root>|<entry> | rmut:<root>|<entry>|<seed>          (repository inputs, includes from disk)
 //!             | hex:<bytes> | hexd:<root>|<entry>|<bytes>                  (literal entry file; minimised inputs)
 //!             | pp:<seed> | ppmut:<seed>      (preprocessor grammar: entry file + in-memory headers + its own API defines)
-//!             | syn:<seed> | synmut:<seed>    (syntax-category generator, see c08_syn.rs)
+//!             | syn:<seed> | synmut:<seed> | synone:<k>   (syntax-category generator, see c08_syn.rs)
 //!             | hexm:<entry>|<hex>|<name>|<hex>|...                        (literal multi-file input)
 //! observe : ok:<pipelines>:<output bytes> | err:<first line of the diagnostic> | panic:<site> | died:<signal> | timeout
 //! oracle  : (the property's own) the worker process survives, `compile` returns, an `Err` renders to a non-empty
@@ -1109,6 +1109,21 @@ pub fn run(args: &Args, out: &mut Out) {
         return;
     }
 
+    if args.extra.iter().any(|e| e == "synprobe") {
+        // one request per syntax category and target: the category's template alone (development aid)
+        for cat in syn_categories() {
+            if let Some(text) = syn_single(cat) {
+                for tgt in ALL_TARGETS {
+                    println!("C08.compile\t{}\tall\t1\t-\thex:{}", tgt.name(), hex(text.as_bytes()));
+                }
+            }
+        }
+        return;
+    }
+    if let Some(cat) = args.extra.iter().find_map(|e| e.strip_prefix("synshow=")) {
+        print!("{}", syn_single(cat).unwrap_or_default());
+        return;
+    }
     if let Some(spec) = args.extra.iter().find_map(|e| e.strip_prefix("dump=")) {
         if let Some(m) = materialise(spec) {
             let mut o = std::io::stdout();
@@ -1183,6 +1198,47 @@ pub fn run(args: &Args, out: &mut Out) {
         })
         .collect();
     let wall = t0.elapsed().as_secs_f64();
+
+    // syntactic categories: by construction for the syn stream (emitted / reached the end of compile()), by a
+    // substring detector for every other in-memory stream (one count per distinct input)
+    {
+        let mut seen: std::collections::BTreeSet<&str> = std::collections::BTreeSet::new();
+        for (q, r) in reqs.iter().zip(&rs) {
+            let kind = q.input.split(':').next().unwrap_or("?");
+            let ok = r.obs.starts_with("ok:");
+            if kind == "synone" && ok {
+                if let Some(c) = q.input.split(':').nth(1).and_then(|s| s.parse::<usize>().ok()).and_then(|k| syn_categories().get(k).copied()) {
+                    hist.add(&format!("catok/syn/{}", c));
+                }
+            }
+            if kind == "syn" {
+                if let Some(seed) = q.input.split(':').nth(1).and_then(|s| s.parse::<u64>().ok()) {
+                    if ok {
+                        for c in &gen_syn(&mut Rng::new(seed)).cats {
+                            hist.add(&format!("catok/syn/{}", c));
+                        }
+                    }
+                }
+            }
+            if matches!(kind, "repo" | "rmut" | "bytes" | "hex" | "hexd" | "hexm") || !seen.insert(q.input.as_str()) {
+                continue;
+            }
+            if let Some(m) = materialise(&q.input) {
+                let mut text = String::from_utf8_lossy(&m.bytes).to_string();
+                for (_, b) in &m.files {
+                    text.push_str(&String::from_utf8_lossy(b));
+                }
+                for c in detect_categories(&text) {
+                    hist.add(&format!("det/{}/{}", kind, c));
+                }
+            }
+        }
+        for k in ["toks", "rep", "gram", "gmut", "feat", "prog", "pmut", "syn", "synmut", "pp", "ppmut"] {
+            for (c, _) in SYN_NEEDLES {
+                hist.0.entry(format!("det/{}/{}", k, c)).or_insert(0);
+            }
+        }
+    }
 
     // distributions and timing
     let mut worst_ratio = 0.0f64; // ns per byte^2, inputs >= 512 bytes
